@@ -210,3 +210,50 @@ func verifSeqLo() int {
 	}
 	return 1
 }
+
+func init() { verifRegister("C01_logon", VerifHarness_C01_logon) }
+
+// C01_logon: the Logon is a numbered message like any other: it is consumed only when it carries the expected number
+// (for every combination of role, NextExpectedMsgSeqNum handling and announced 789), and a Logon that arrives early
+// leaves the expected number alone so that the missing messages can still be delivered in order.
+func VerifHarness_C01_logon() {
+	bs := verifPickBeginString()
+	r := verifNewSession(ndBool("initiator"), bs)
+	r.s.EnableNextExpectedMsgSeqNum = ndBool("EnableNextExpectedMsgSeqNum")
+	T := ndInt("T", verifSeqLo(), 50)
+	N := ndInt("N", 1, 9)
+	r.setCounters(T, N)
+	r.s.State = logonState{}
+	S := ndInt("S", verifSeqLo(), 60)
+	m := r.inbound("A", S)
+	if ndBool("has-789") {
+		m.Body.SetInt(tagNextExpectedMsgSeqNum, ndInt("789", 1, 12))
+	}
+	r.s.fixMsgIn(r.s, m)
+	r.pump()
+	T1 := r.st.NextTargetMsgSeqNum()
+	if S == T {
+		verifCase("in-sequence")
+		if r.s.IsLoggedOn() {
+			verifAssert(T1 == T+1, "logon-in-sequence-consumes-its-number")
+		}
+	} else {
+		verifCase("out-of-sequence")
+		if r.s.IsLoggedOn() {
+			verifAssert(T1 == T, "logon-expected-number-changes-only-when-the-expected-message-arrives")
+		} else {
+			// a refused Logon (here: an announced 789 above anything we sent) ends the connection and, as in the other
+			// QuickFIX engines, counts as consumed whatever its number; C01 says nothing about refused logons beyond
+			// "never backwards"
+			verifAssert(T1 >= T && T1 <= T+1, "refused-logon-moves-the-expected-number-by-at-most-one")
+		}
+	}
+	verifAssert(len(r.app.fromApp) == 0, "logon-delivers-nothing-to-fromapp")
+	// the missing messages then arrive as replays and are delivered in order
+	if S > T && r.s.IsLoggedOn() {
+		rp := r.appMessage(T)
+		verifPossDup(rp)
+		r.s.fixMsgIn(r.s, rp)
+		verifAssert(len(r.app.fromApp) == 1 && r.app.fromApp[0].seq == T, "logon-gap-first-missing-message-delivered")
+	}
+}
